@@ -410,6 +410,122 @@ func c12StreamCase(c *rt.Ctx, sub int, r *rand.Rand) {
 	}
 }
 
+type c12PreIn struct {
+	S string
+	L []int
+}
+
+type c12Pre struct {
+	Sl []string
+	N  []int
+	In []c12PreIn
+	B  [][]byte
+}
+
+// c12PrepopCase: a history of decodes of one type into destinations whose slices already have
+// elements and spare capacity (the decoder may work in place, or in pooled scratch arrays), mixed
+// with decodes into empty destinations; every value decoded earlier must keep its contents while
+// the later decodes run. Unmarshal and one Decoder over the concatenated documents.
+func c12PrepopCase(c *rt.Ctx, sub int, r *rand.Rand) {
+	n := 3 + r.Intn(5)
+	stream := r.Intn(2) == 0
+	mkDoc := func() string {
+		var sb strings.Builder
+		sb.WriteString(`{"Sl":[`)
+		m := []int{0, 1, 2, 3, 4, 7, 9, 17}[r.Intn(8)]
+		for i := 0; i < m; i++ {
+			if i > 0 {
+				sb.WriteByte(',')
+			}
+			fmt.Fprintf(&sb, `"s%d-%d"`, r.Intn(1000), i)
+		}
+		sb.WriteString(`],"N":[`)
+		m = []int{0, 1, 2, 3, 4, 7, 9, 17}[r.Intn(8)]
+		for i := 0; i < m; i++ {
+			if i > 0 {
+				sb.WriteByte(',')
+			}
+			fmt.Fprintf(&sb, `%d`, r.Intn(100000))
+		}
+		sb.WriteString(`],"In":[`)
+		m = r.Intn(4)
+		for i := 0; i < m; i++ {
+			if i > 0 {
+				sb.WriteByte(',')
+			}
+			fmt.Fprintf(&sb, `{"S":"in%d","L":[%d,%d,%d]}`, r.Intn(1000), r.Intn(9), r.Intn(9), r.Intn(9))
+		}
+		sb.WriteString(`],"B":["QUJD","eHl6"]}`)
+		return sb.String()
+	}
+	mkDst := func() *c12Pre {
+		d := &c12Pre{}
+		if r.Intn(3) == 0 {
+			return d
+		}
+		l, cp := 1+r.Intn(3), []int{4, 8, 16, 64}[r.Intn(4)]
+		d.Sl = make([]string, l, cp)
+		for i := range d.Sl {
+			d.Sl[i] = "old"
+		}
+		d.N = make([]int, l, cp)
+		d.In = make([]c12PreIn, l, cp)
+		for i := range d.In {
+			d.In[i] = c12PreIn{"old", make([]int, 2, 8)}
+		}
+		d.B = make([][]byte, 1, cp)
+		d.B[0] = make([]byte, 2, 16)
+		return d
+	}
+	docs := make([]string, n)
+	for i := range docs {
+		docs[i] = mkDoc()
+	}
+	var dec *gojson.Decoder
+	entry := "Unmarshal"
+	if stream {
+		entry = "Decoder"
+		dec = gojson.NewDecoder(&cutReader{[]byte(strings.Join(docs, "\n")), 1 + r.Intn(200)})
+	}
+	var dsts []*c12Pre
+	var snaps []string
+	for i := 0; i < n; i++ {
+		d := mkDst()
+		var err error
+		if pan, _, _ := rt.Guard(func() {
+			if stream {
+				err = dec.Decode(d)
+			} else {
+				err = gojson.Unmarshal([]byte(docs[i]), d)
+			}
+		}); pan || err != nil {
+			c.Obs("prepop_decode_errors", 1)
+			return
+		}
+		c.Eval(1)
+		for j, e := range dsts {
+			if after := deepRender(reflect.ValueOf(e).Elem()); after != snaps[j] {
+				c.Violate(rt.Violation{Monitor: "stream-stable", Entry: entry, Kind: "earlier-value-changed-by-later-decode", Ctx: "prepopulated-destinations",
+					Detail: fmt.Sprintf("value #%d changed from %s to %s after decode #%d of %s", j, rt.Q([]byte(snaps[j])), rt.Q([]byte(after)), i, docs[i]),
+					Input:  map[string]any{"docs": docs, "entry": entry}, Sub: sub})
+				return
+			}
+		}
+		dsts = append(dsts, d)
+		snaps = append(snaps, deepRender(reflect.ValueOf(d).Elem()))
+	}
+	burst(r, 4)
+	for j, e := range dsts {
+		if after := deepRender(reflect.ValueOf(e).Elem()); after != snaps[j] {
+			c.Violate(rt.Violation{Monitor: "stream-stable", Entry: entry, Kind: "earlier-value-changed-by-later-decode", Ctx: "prepopulated-destinations:after-burst",
+				Detail: fmt.Sprintf("value #%d changed from %s to %s", j, rt.Q([]byte(snaps[j])), rt.Q([]byte(after))), Input: map[string]any{"docs": docs, "entry": entry}, Sub: sub})
+			return
+		}
+	}
+	c.Obs("prepop_histories_clean", 1)
+	c.NonTrivial("prepop", entry, strings.Join(docs, "|"))
+}
+
 func init() {
 	register(&Prop{
 		ID: "C12",
@@ -422,8 +538,13 @@ func init() {
 		Run: func(c *rt.Ctx) {
 			r := c.RNG(0)
 			entries := []string{"Unmarshal", "UnmarshalWithOption", "Decoder(bytes.Reader)", "Decoder(bytes.Buffer)"}
-			for k := 0; k < 24; k++ {
+			for k := 0; k < 28; k++ {
 				if !c.Cur(k, fmt.Sprintf("shapes=core\naliasing case %d", k)) {
+					continue
+				}
+				switch {
+				case k >= 20:
+					c12PrepopCase(c, k, r)
 					continue
 				}
 				switch k % 4 {
